@@ -11,7 +11,11 @@ K2 == <<2, MkClamped(2, <<Half>>, <<1>>)>>
 SurfSet == {s \in Surfaces({B1, L3, K2}, {B2, L3, K2}, {3}, BOOLEAN, Seed) : s.size[1] # s.size[2]}
 VolSet == {s \in Volumes({B1}, {L3, B2}, {B1, K2}, {FALSE}, Seed) : DiffSizes(s)}
 CurveSet == Curves({K2, <<3, MkClamped(3, <<Half>>, <<2>>)>>}, {2}, BOOLEAN, Seed)
-Init == sh \in SurfSet \cup VolSet \cup CurveSet /\ out = [op |-> "init"]
+\* a "valley": the control polygon overshoots the surface (control heights 2, 0, 2; the surface only comes down to height 1, at u = 1/2),
+\* so the sampled points do not reach the bounding box of the control net and their lowest height lies ON a grid plane for 3 voxels in z
+Valley == [deg |-> <<2, 1>>, kv |-> <<B2[2], B1[2]>>, size |-> <<3, 2>>, rat |-> FALSE,
+           P |-> [i \in 1..6 |-> LET iu == (i - 1) \div 2  iv == (i - 1) % 2 IN <<RI(iu), RI(iv), IF iu = 1 THEN Zero ELSE RI(2)>>]]
+Init == sh \in SurfSet \cup VolSet \cup CurveSet \cup {Valley} /\ out = [op |-> "init"]
 
 \* _voxelize.generate_voxel_grid: per axis the values lo + i step, i = 0..sz-1 (a single value when the extent is zero);
 \* voxel = closed box [corner, corner + step]
@@ -34,10 +38,12 @@ Voxelize(gs, ns) ==
 FindCtrl(prm) == /\ out.op = "init" /\ PDim(sh) <= 2
                  /\ out' = [op |-> "find_ctrlpts", prm |-> prm, idx |-> SortedInts(ActiveIdx(sh, prm))] /\ UNCHANGED sh
 NS == IF PDim(sh) = 2 THEN {<<3, 4>>, <<5, 2>>} ELSE {<<2, 3, 2>>}
-GS == {<<2, 2, 2>>, <<2, 3, MaxVox>>, <<MaxVox, 2, 3>>}
+GS == {<<2, 2, 2>>, <<2, 3, MaxVox>>, <<MaxVox, 2, 3>>} \cup (IF sh = Valley THEN {<<2, 2, 3>>, <<3, 2, 3>>} ELSE {})
 Next == (\E gs \in GS : \E ns \in NS : Voxelize(gs, ns)) \/ (\E prm \in ShapeParams(sh, 1) : FindCtrl(prm))
 Spec == Init /\ [][Next]_vars
 \* the grid covers the bounding box: every sample lies in some voxel, so at least one voxel is filled; corners are grid corners
+\* a voxel may be filled only through its boundary: the valley's lowest samples lie on the upper face of the bottom layer
+T_Touching == out.op = "voxelize" /\ sh = Valley /\ out.gs[3] = 3 => \E x \in 1..Len(out.grid) : out.filled[x] = 1 /\ out.grid[x][2][3] = One
 T_Covers == out.op = "voxelize" =>
    /\ \E x \in 1..Len(out.filled) : out.filled[x] = 1
    /\ out.grid[1][1] = out.bbox[1]
